@@ -14,6 +14,7 @@ import (
 	"path/filepath"
 	"regexp"
 	"strings"
+	"sync/atomic"
 	"testing"
 	"time"
 
@@ -48,8 +49,21 @@ func canary(e *twig.Engine) error {
 	if r.Failed() || r.Out != "2|x|hello x|12" {
 		return fmt.Errorf("the engine is unusable afterwards: canary gives %v", r)
 	}
+	// every 8th time: nested includes, inheritance and macros on a fresh engine (whatever earlier
+	// renders left behind in process-wide pools must not make ordinary nesting fail)
+	if n := atomic.AddInt64(&canaryCalls, 1); n%8 == 0 {
+		ce := newEngine(canaryTemplates)
+		r := guardT(c05Watchdog, func() (string, error) { return ce.Render("page", map[string]interface{}{"v": "V"}) })
+		if r.Hang || r.Failed() || r.Out != "L[P(a(b(leafV)))<mV>]" {
+			return fmt.Errorf("later calls are affected: a fresh engine renders a page with nested includes, a parent and a macro as %v (canary call %d)", r, n)
+		}
+	}
 	return nil
 }
+
+var canaryCalls int64
+var canaryTemplates = map[string]string{"layout": "L[{% block c %}{% endblock %}]", "page": "{% extends 'layout' %}{% block c %}P({% include 'a' %}){% import 'lib' as l %}{{ l.m(v) }}{% endblock %}",
+	"a": "a({% include 'b' %})", "b": "b({% include 'leaf' with {'w': v} %})", "leaf": "leaf{{ w }}", "lib": "{% macro m(x) %}<m{{ x }}>{% endmacro %}"}
 
 type C05SrcCase struct {
 	Templates map[string]string `json:"templates"` // other templates available to the loader
@@ -408,6 +422,10 @@ func c05Shapes() []*E {
 	// named, an array, or itself a collection
 	base = append(base, ZT(List(Int(1), Str("a")), "named[]iface"), ZT(List(), "named[]iface"), ZT(List(Str("b"), Str("a")), "named[]string"), ZT(List(Int(2), Int(1)), "named[]int"),
 		ZT(List(Int(1), Str("a")), "[2]iface"), ZT(List(Str("x"), Str("y")), "[]error"), ZT(List(Str("x"), Str("y")), "[]stringer"), ZT(List(Int(1), Int(5)), "[][]int"), ZT(List(Int(1), Int(5)), "[]map"))
+	// pointers to pointers (to a struct with methods on both receivers, to a scalar, to a slice), a
+	// pointer to a struct with methods
+	base = append(base, ZPtr(ZT(Hash([]string{"Name", "N"}, []*E{Str("pp"), Int(3)}), "ptrmeth")), ZT(Hash([]string{"Name", "N"}, []*E{Str("pm"), Int(4)}), "ptrmeth"), ZT(Hash([]string{"Name", "N"}, []*E{Str("vm"), Int(5)}), "meth"),
+		ZPtr(ZPtr(Int(5))), ZPtr(ZT(Hash([]string{"Name"}, []*E{Str("n")}), "ptrstruct")), ZPtr(ZPtr(ZT(List(Int(1)), "[]int"))), ZPtr(ZPtr(ZPtr(Str("deep")))))
 	base = append(base, c05Big(func(i int) *E { return Int(int64(i)) }), c05Big(func(i int) *E { return List(Int(int64(i))) }),
 		c05Big(func(i int) *E { return Hash([]string{"k"}, []*E{Int(int64(i))}) }), ZT(c05Big(func(i int) *E { return Int(int64(i)) }), "[]int"))
 	return base
@@ -423,7 +441,7 @@ func c05Big(el func(i int) *E) *E {
 
 var c05UnaryExprs = []string{"x", "not x", "-x", "+x", "x|abs", "x|upper", "x|lower", "x|trim", "x|capitalize", "x|title", "x|length", "x|first", "x|last", "x|reverse", "x|sort", "x|keys", "x|join(',')", "x|join", "x|split(',')", "x|slice(1)", "x|slice(0, 2)", "x|slice(-1)",
 	"x|default('d')", "x|escape", "x|e", "x|raw", "x|striptags", "x|nl2br", "x|spaceless", "x|url_encode", "x|json_encode", "x|round", "x|round(1, 'ceil')", "x|number_format(2)", "x|number_format", "x|date('Y-m-d')", "x|format('a')", "x|replace('a', 'b')", "x|replace({'a': 'b'})",
-	"x|merge([1])", "x|merge({'a': 1})", "x|merge(x)", "x|count", "x|trim('a')", "x.a", "x.Name", "x.k", "x['a']", "x['k']", "x[0]", "x[1]", "x[-1]", "x[undefined]", "x[null]", "x['0']", "x.a.b", "x[0][0]", "x.Tags[0]", "x.Author", "x.Author.Name", "x.Author.Tags[0]", "x.Meta", "x.Meta.k", "x.Inner", "x.Inner.Z", "x.Count",
+	"x|merge([1])", "x|merge({'a': 1})", "x|merge(x)", "x|count", "x|trim('a')", "x.a", "x.Name", "x.k", "x['a']", "x['k']", "x[0]", "x[1]", "x[-1]", "x[undefined]", "x[null]", "x['0']", "x.a.b", "x[0][0]", "x.Tags[0]", "x.Author", "x.Author.Name", "x.Author.Tags[0]", "x.Meta", "x.Meta.k", "x.Inner", "x.Inner.Z", "x.Count", "x.Label", "x.Twice", "x.Label|upper", "x.Twice + 1", "x.N",
 	"x is defined", "x is empty", "x is null", "x is even", "x is odd", "x is iterable", "x is divisible_by(2)", "x is divisible_by(0)", "x is same_as(x)", "x is constant('a')", "x is starts_with('a')", "x is matches('/a/')", "x is matches('[')",
 	"max(x)", "min(x)", "max(x, 1)", "length(x)", "range(x)", "range(1, x)", "range(1, 3, x)", "range(x, x, x)", "cycle(x, 1)", "cycle(x, -1)", "cycle([1,2], x)", "merge(x, x)", "merge(x, [1])", "dump(x)", "json_encode(x)", "date(x)", "date(x, 'Y')", "random(x)", "constant(x)",
 	"x ? 1 : 2", "x ?: 'd'", "x ?? 'd'", "x ~ x", "x in x", "x matches x", "x starts with x", "x ends with x", "x == x", "x < x", "x + x", "x - x", "x * x", "x / x", "x % x", "x ^ x", "x and x", "x or x", "x|batch(2)", "x|first|first", "x|last.a", "x|keys|first", "x|sort|first", "x|reverse|join"}
